@@ -139,6 +139,12 @@ def native(chk, unit):
     return exe
 
 
+def cli_stage(chk):
+    """hexasm executable vs the in-process pipeline (shared with C05/C17): the source holds the boundary immediates"""
+    import c05
+    c05.cli_stage(chk, c05.native(chk), PID)
+
+
 def literal_stage(chk, exe):
     """boundary literals, both spellings, through the real Lexer/Parser/CodeGen (needs no extracted text)"""
     rc, o, e, secs = hv.run([exe, "literals"], timeout=300)
@@ -161,6 +167,7 @@ def native_only(chk):
     """extraction failed: the proof is undecided, but the real code can still be run on the boundary inputs"""
     exe = native(chk, None)
     literal_stage(chk, exe)
+    cli_stage(chk)
 
 
 def replay(exe, token, value, literal=None):
@@ -218,6 +225,7 @@ def main(chk, replay_file):
     hv.run_jobs(jobs, chk.out)
     exe = native(chk, unit)
     literal_stage(chk, exe)
+    cli_stage(chk)
 
     # --- fidelity: extracted C == real C++ on seeded + boundary inputs (assumption reducer)
     n = 20000 if tier == "quick" else 2000000
